@@ -131,4 +131,16 @@ def run(res, replay=None):
         if len(r['vec']) != len(c['ts']):
             res.violation('wrong number of results', {'case': c, 'n': len(r['vec'])})
         res.sample({'entry': c['entry'], 'ts': c['ts'], 'container': c['container'], 'vectorised': r['vec'][:3]}, cap=4)
+    # the same multiset of times in another order, asked of the same object after the first call
+    for c in cases:
+        r = impl[id(c)]
+        if 'error' in r or 'vec2' not in r:
+            continue
+        n_ = len(c['ts'])
+        for j in range(n_):
+            want = r['pt'][(j + 1) % n_]
+            if not eq_val(r['vec2'][j], want, False, 1e-10):
+                res.violation(f"{c['entry']}: the same times asked again in another order on the same object: position {j} is not the value of its time",
+                              {'case': c, 'second_call_times': c['ts'][1:] + c['ts'][:1], 'position': j, 'observed': r['vec2'][j], 'expected': want})
+                break
     res.stream('vectorised', cases=len(cases), **{f'entry_{k}': v for k, v in dist.items()})
